@@ -29,7 +29,7 @@ PROP = "C14"
 CT = "pandapower.contingency.contingency"
 MIN_OBLIGATIONS = 30
 NOT_DECIDED = ["not decided: the N-1 power flows themselves (contingency_evaluation_function is any function with the C08 frame)",
-               "not decided: run_contingency_ls2g (lightsim2grid back end)", "not decided: write_to_net column transfer"]
+               "not decided: run_contingency_ls2g (lightsim2grid back end)"]
 
 
 def configure(it):
@@ -45,7 +45,7 @@ def _xcol(t, name):
     return e
 
 
-def _mk_net(first, elements=("line", "trafo")):
+def _mk_net(first, elements=("line", "trafo"), no_limit=()):
     """net + contingency_results in the state before a step; `first`: no accumulator exists yet"""
     fields = {}
     cr = PDict()
@@ -63,7 +63,8 @@ def _mk_net(first, elements=("line", "trafo")):
     for el in elements:
         t = Table(el); rt = Table(f"res_{el}", space=t.space, index=t.index_e)
         t.add_col("in_service", B)
-        t.add_col("max_loading_percent", R)
+        if el not in no_limit:
+            t.add_col("max_loading_percent", R)     # the limit is an optional column of the element tables
         _xcol(rt, "loading_percent")
         fields[el], fields[f"res_{el}"] = t, rt
         d = PDict({"index": Arr(t.space, t.index_e),
@@ -111,6 +112,11 @@ def run(vc):
             vc.explore(f"_update_contingency_results[{'first' if first else 'later'},{cause_element}]",
                        lambda p, first=first, cause_element=cause_element: step_harness(p, f"{CT}:_update_contingency_results", rv, first, cause_element, False),
                        max_paths=200)
+
+    for first in (True, False):
+        vc.explore(f"_update_contingency_results[{'first' if first else 'later'},line,trafo without limit column]",
+                   lambda p, first=first: step_harness(p, f"{CT}:_update_contingency_results", rv, first, "line", False, no_limit=("trafo",)),
+                   max_paths=200)
 
     # causes_overloading is set only when some branch is overloaded: on the paths where no any(...) fired the flag is unchanged
     def h_only(p):
@@ -177,10 +183,21 @@ def run(vc):
                         meta=dict(clause="restore", raise_errors=raise_errors, raised=out.raised))
             p.cover(f"run[{raise_errors},{out.raised}]", True)
         vc.explore(f"run_contingency[raise_errors={raise_errors}]", hr, max_paths=400)
+    _run_writeback(vc)
+    if not hasattr(vc, "native_standins"):
+        vc.native_standins = []
+    vc.native_standins.append(dict(
+        name="run_contingency against a brute-force recomputation on fixed networks",
+        bound="case9, case14 (with and without a loading limit of the transformers), a ring with a parallel line, double circuits with an "
+              "unsorted line index; three case orders each; returned dict and result tables; a second analysis started from the results "
+              "of the first (tables kept)",
+        script="from replaylib.contingency import main, main_tables\nimport sys\n"
+               "for f in (main, main_tables):\n    try:\n        f()\n    except SystemExit as e:\n        if e.code:\n            raise\n",
+        timeout=1500))
 
 
-def step_harness(p, fn_key, rv, first, cause_element, parallel):
-    net, cr = _mk_net(first)
+def step_harness(p, fn_key, rv, first, cause_element, parallel, no_limit=()):
+    net, cr = _mk_net(first, no_limit=no_limit)
     for nm in ("bus", "line", "trafo"):
         net.fields.raw(nm).label_axiom(p.it)
     old = _snapshot(cr)
@@ -198,9 +215,15 @@ def step_harness(p, fn_key, rv, first, cause_element, parallel):
         extra["parallel_results"] = PDict({el: PDict({var: Arr(net.fields.raw(f"res_{el}").space, net.fields.raw(f"res_{el}").cols[var])})
                                            for el, var in (("bus", "vm_pu"), ("line", "loading_percent"), ("trafo", "loading_percent"))})
     out = p.call(fn_key, net, cr, rv, True, cause_element=cause_element, cause_index=c_idx, **extra)
+    tag = f"{'first' if first else 'later'},cause={cause_element}" + (f",no limit column in {'/'.join(no_limit)}" if no_limit else "")
+    if no_limit:
+        p.prove(f"step-completes[{tag}]", not out.raised,
+                note="the loading limit is optional: without the column the case is evaluated like any other (nothing can be overloaded)",
+                meta=dict(clause="no-limit", first=first))
+        if out.raised:
+            return
     if out.raised:
         raise EngineError(f"{fn_key} raised {out.exc!r}")
-    tag = f"{'first' if first else 'later'},cause={cause_element}"
     for el, var in (("bus", "vm_pu"), ("line", "loading_percent"), ("trafo", "loading_percent")):
         t, rt = net.fields.raw(el), net.fields.raw(f"res_{el}")
         val = _xv(rt.cols[var])
@@ -255,12 +278,67 @@ def step_harness(p, fn_key, rv, first, cause_element, parallel):
     for el in ("line", "trafo"):
         t, rt = net.fields.raw(el), net.fields.raw(f"res_{el}")
         val = _xv(rt.cols["loading_percent"])
-        over_generic.append(z3.And(z3.Not(_flag_z(val.nan)), to_z(val.v, R) > to_z(t.cols["max_loading_percent"], R)))
+        over_generic.append(z3.And(z3.Not(_flag_z(val.nan)), to_z(val.v, R) > to_z(t.cols["max_loading_percent"], R))
+                            if "max_loading_percent" in t.cols else z3.BoolVal(False))
     # set => generic direction: if some branch row is overloaded in this case the flag of the outaged element is set
     for k, el in enumerate(("line", "trafo")):
         p.prove(f"causes-overloading:set-when-overloaded[{el},{tag}]", z3.Implies(z3.And(is_c, over_generic[k]), co_new),
                 note="an outage that overloads a branch is flagged", meta=dict(clause="overloading"))
     p.cover(f"step[{tag}]", True)
+
+
+def _run_writeback(vc):
+    """what run_contingency writes to the result tables is what it returns -- also when the tables already carry the columns of an
+    earlier analysis (they are kept when the calculation starts from the previous results)"""
+    for stale in (False, True):
+        def hw(p, stale=stale):
+            p.fn(f"{CT}:run_contingency")
+            net, _ = _mk_net(True, elements=("line", "trafo", "trafo3w"))
+            for nm in ("bus", "line", "trafo", "trafo3w"):
+                t = net.fields.raw(nm)
+                t.label_axiom(p.it)
+                p.assume(t.space.n > 0)
+            net.fields.set("user_pf_options", PDict())
+            net.fields.set("_options", PDict())
+            acc = {"bus": ["max_vm_pu", "min_vm_pu"], "line": ["max_loading_percent", "min_loading_percent"],
+                   "trafo": ["max_loading_percent", "min_loading_percent"], "trafo3w": ["max_loading_percent", "min_loading_percent"]}
+            if stale:
+                for el, keys in acc.items():
+                    rt = net.fields.raw(f"res_{el}")
+                    for k in keys:
+                        _xcol(rt, k)
+                    if el != "bus":
+                        rt.add_col("causes_overloading", B)
+                        rt.add_col("cause_index", I)
+
+            def upd(it, n, cres, rvars, nminus1, cause_element=None, cause_index=None):
+                for el, keys in acc.items():
+                    t = net.fields.raw(el)
+                    for k in keys:
+                        cres.raw(el).set(k, Arr(t.space, XV(SV(z3.Function(f"new.{el}.{k}", I, R)(t.space.i)),
+                                                           z3.Function(f"new.{el}.{k}.isnan", I, B)(t.space.i))))
+                    var = "vm_pu" if el == "bus" else "loading_percent"
+                    cres.raw(el).set(var, Arr(t.space, net.fields.raw(f"res_{el}").cols[var]))
+            p.it.summaries[f"{CT}:_update_contingency_results"] = upd
+            out = p.call(f"{CT}:run_contingency", net, PDict({}), pf_options=PDict(), pf_options_nminus1=PDict(), write_to_net=True,
+                         contingency_evaluation_function=Native(lambda it, n, **kw: None, pure=False, name="evaluate"))
+            if out.raised:
+                raise EngineError(f"run_contingency raised {out.exc!r}")
+            res = out.value
+            for el, keys in acc.items():
+                rt = net.fields.raw(f"res_{el}")
+                d = res.raw(el)
+                for k in keys + ([] if el == "bus" else ["causes_overloading", "cause_index"]):
+                    ok = k in rt.cols
+                    p.prove(f"written[{el}.{k},{'tables of an earlier analysis' if stale else 'fresh tables'}]:column exists", ok,
+                            meta=dict(clause="tables"))
+                    if not ok:
+                        continue
+                    want, got = d.raw(k).e, rt.cols[k]
+                    same = _eq_x(_xv(got), _xv(want)) if isinstance(want, XV) or isinstance(got, XV) else to_z(got) == to_z(want)
+                    p.prove(f"written[{el}.{k},{'tables of an earlier analysis' if stale else 'fresh tables'}]", same,
+                            note="net.res_<element>[var] equals the returned contingency_results[element][var]", meta=dict(clause="tables"))
+        vc.explore(f"run_contingency[write_to_net,{'stale' if stale else 'fresh'}]", hw, max_paths=50)
 
 
 def classify(ob, model):
